@@ -50,6 +50,22 @@ func apath(v ssa.Value, d int) string {
 		return apath(x.X, d+1) + "[" + apath(x.Index, d+1) + "]"
 	case *ssa.Parameter:
 		return "p:" + x.Name()
+	case *ssa.Alloc:
+		// a spilled parameter / single-assignment local stands for the value stored into it
+		var src ssa.Value
+		n := 0
+		if refs := x.Referrers(); refs != nil {
+			for _, r := range *refs {
+				if st, ok := r.(*ssa.Store); ok && st.Addr == ssa.Value(x) {
+					src = st.Val
+					n++
+				}
+			}
+		}
+		if n == 1 {
+			return apath(src, d+1)
+		}
+		return x.Name()
 	case *ssa.Const:
 		return "k:" + x.String()
 	case *ssa.ChangeType:
